@@ -702,6 +702,27 @@ def sessOp (cfg : Cfg) (n : Node) (sid : Nat) (mode : Mode) : Op → Node × Sta
           | (n, false) => (n, .err "NoSpace")
   | _ => (n, .err "bad")
 
+/-- `Matter::factory_reset` (lib.rs, as repaired) + the network part of `InteractionModelState::reset_persist`
+(im.rs:181), in the order of the harness -/
+def factoryReset (n : Node) : Node × Status :=
+  -- lib.rs `Matter::factory_reset` (as repaired): the sessions of every fabric go first
+  -- (`remove_for_fabric` for each index 1..255); then `Fabrics::reset_persist` - memory fabrics, then
+  -- one `remove` per fabric key 1..255 - and the other parts. A failing store call ends the part it
+  -- belongs to, the remaining parts are reset all the same (the first error is answered). An
+  -- injected fault (at most the third call) therefore hits a fabric key: the keys 1 .. failIn-1 are
+  -- removed, the call for key `failIn` fails
+  let hi := if n.failIn ≠ 0 then n.failIn else 256
+  let st : Status := if n.failIn ≠ 0 then .err "NoSpace" else .ok
+  let (kv, hist) := delFabricKeys hi 1 256 n.kv n.hist
+  -- the resumption cache: memory, then the key
+  let n := { n with fabrics := [], sessions := n.sessions.filter (fun s => s.mode.fab = 0),
+                    kv := kv, hist := hist, failIn := 0, resum := [], resumStale := false }
+  let n := if n.kv.resum ≠ .absent then kvCommit n { n.kv with resum := .absent } else n
+  -- the network part of the reset (im.rs:181)
+  let n := { n with nets := [], managed := false }
+  let n := if n.kv.nets.isSome then kvCommit n { n.kv with nets := none } else n
+  (n, st)
+
 def isSessOp : Op → Option Nat
   | .openW s | .arm s _ | .csr s _ | .root s _ | .addnoc s _ _ _ _ _ | .updnoc s _ _ | .acl s _
   | .grp s _ | .label s _ | .net s _ | .rmnet s _ | .complete s | .rmfab s _ | .revoke s
@@ -805,24 +826,7 @@ def step (cfg : Cfg) (n : Node) (op : Op) : Node × Status :=
     | .corrupt =>
       let kv := { n.kv with resum := .garbage }
       ok (restartFrom n kv (kv :: n.hist))
-    | .freset =>
-      -- lib.rs:621: memory fabrics first, then one `remove` per fabric key 1..255, then the other
-      -- keys; an injected fault (at most the third call) therefore hits a fabric key
-      let n := { n with fabrics := [] }
-      if n.failIn ≠ 0 then
-        -- keys 1 .. failIn-1 are removed, the call for key `failIn` fails
-        let (kv, hist) := delFabricKeys n.failIn 1 256 n.kv n.hist
-        -- the network part of the reset still runs in the harness (im.rs:181)
-        let n := { n with kv := kv, hist := hist, failIn := 0, nets := [], managed := false }
-        let n := if n.kv.nets.isSome then kvCommit n { n.kv with nets := none } else n
-        (n, .err "NoSpace")
-      else
-        let (kv, hist) := delFabricKeys 256 1 256 n.kv n.hist
-        let n := { n with kv := kv, hist := hist, resum := [], resumStale := false }
-        let n := if n.kv.resum ≠ .absent then kvCommit n { n.kv with resum := .absent } else n
-        let n := { n with nets := [], managed := false }
-        let n := if n.kv.nets.isSome then kvCommit n { n.kv with nets := none } else n
-        ok n
+    | .freset => factoryReset n
     | _ => (n, .err "bad")
 
 /-! ## canonical dump (must equal `World::dump` of the harness) -/
